@@ -310,6 +310,30 @@ func (e *Env) dataCase(r *rand.Rand, id int) map[string]interface{} {
 	_, err = hc.Update(context.TODO(), got2.DeepCopy(), metav1.UpdateOptions{})
 	after := e.apiSet(sts.Name)
 	add("hijack-resubmit-keeps-template", err == nil && eq(before.Spec.Template, after.Spec.Template) && eq(before.Spec, after.Spec) && before.Generation == after.Generation)
+	// a write that meets a Conflict is all or nothing: either it is reported and nothing is stored, or everything the
+	// caller submitted (metadata included: the slots of a scale-in travel in an annotation) is stored
+	if cur, gerr := hc.Get(context.TODO(), sts.Name, metav1.GetOptions{}); gerr == nil {
+		mod := cur.DeepCopy()
+		if mod.Annotations == nil {
+			mod.Annotations = map[string]string{}
+		}
+		mod.Annotations[helper.DeleteSlotsAnn] = "[1]"
+		two := int32(2)
+		mod.Spec.Replicas = &two
+		beforeC := e.apiSet(sts.Name).DeepCopy()
+		e.api.ResetLog()
+		e.api.faults = []Fault{{K: 1, Kind: "Conflict"}}
+		_, uerr := hc.Update(context.TODO(), mod, metav1.UpdateOptions{})
+		e.api.faults = nil
+		afterC := e.apiSet(sts.Name)
+		okC := false
+		if uerr != nil {
+			okC = eq(beforeC.Spec, afterC.Spec) && eq(beforeC.Annotations, afterC.Annotations) && eq(beforeC.Labels, afterC.Labels)
+		} else {
+			okC = afterC.Annotations[helper.DeleteSlotsAnn] == "[1]" && afterC.Spec.Replicas != nil && *afterC.Spec.Replicas == 2
+		}
+		add("hijack-update-conflict-all-or-nothing", okC)
+	}
 	// lists keep length, order, type
 	for k := 0; k < 2; k++ {
 		o := randSet(r, id*10+k+1)
